@@ -2,7 +2,7 @@ from checkdef import part
 SPEC = {
     "level": "model_checking",
     "parts": [part("c03_restart", "plain", ["c03_restart.cpp"], timeout={"quick": 1500, "thorough": 7200})],
-    "rule": "22 configurations (restraints fixed/moving/staged, walls, linear, ABMD, ALB, histogram, histogramRestraint, "
+    "rule": "24 configurations (restraints fixed/moving/staged, walls, linear, ABMD, ALB, histogram, histogramRestraint, "
             "metadynamics with/without grids, keepHills, well-tempered, expandBoundaries, OPES, ABF 1-D/2-D, eABF, TI) x ALL "
             "trajectory words of length 4 (thorough 5) over {bin a, bin b, exact bin edge, below grid, above grid} "
             "(x {-1,+2} system force and length 3/4 where total forces are read) x EVERY stop step K x {text, binary} x "
@@ -10,7 +10,9 @@ SPEC = {
             "uninterrupted run; the word tree is explored unmerged; states = distinct final saved states, transitions = steps",
     "assumptions": ["trajectories and system forces are scripted (not integrated from Colvars forces)",
                     "text state carries 14 significant digits: text restarts compared at 1e-9 relative, binary at 1e-12",
-                    "extended-Lagrangian case uses zero friction (no random numbers across the restart)"],
+                    "extended-Lagrangian case uses zero friction (no random numbers across the restart)",
+                    "metadynamics with gridsUpdateFrequency > newHillFrequency is run on bin-centre values only: writing a state "
+                    "tabulates pending hills, which changes their evaluation from analytic to binned (see C05 known finding)"],
 }
 META = {
   "text": "Explicit enumeration of every (history, stop point, format, timing) within the stated bounds on the real module: a "
